@@ -5,6 +5,7 @@ import (
 	"fmt"
 	"os"
 	"strings"
+	"sync/atomic"
 	"time"
 
 	"verifharness/internal/core"
@@ -159,12 +160,17 @@ func runActionCheck(r *core.Run, sp *ActionSpec) {
 		obs Out
 	}
 	results := make([]*mism, len(behs))
+	var nmism int32
 	core.Parallel(len(behs), 8, func(i int) {
+		if atomic.LoadInt32(&nmism) > 60 {
+			return // the code no longer follows the specification: the remaining replays add nothing (and may each wait for locks)
+		}
 		b := behs[i]
 		obs := runHistory(r, sp, b.init, b.acts)
 		for k := range obs {
 			if !sameOut(obs[k], b.exps[k]) {
 				results[i] = &mism{b: b, i: k, obs: obs[k]}
+				atomic.AddInt32(&nmism, 1)
 				return
 			}
 		}
